@@ -858,6 +858,22 @@ func (fx *FX) evalCall(env *Env, t *ECall) Val {
 		return Val{T: sCap(arg(0).T), Typ: types.Typ[types.Int]}
 	case "allmem":
 		return Val{T: fx.comp(env.st, "M:bv8", SArr(SInt, SBytes))}
+	case "only_region":
+		// only_region(s): of the memory of s's element sort, only the region of slice s may differ from
+		// what it was when the call started (every other region that existed then is unchanged)
+		if env.old == nil {
+			env.fail("only_region() outside a postcondition / loop clause with an entry state")
+		}
+		x := arg(0)
+		if x.T.Sort != SSlice || x.Typ == nil {
+			env.fail("only_region: argument must be a typed slice")
+		}
+		es := w.SortOf(x.Typ.Underlying().(*types.Slice).Elem())
+		key := "M:" + sortID(es)
+		now := fx.comp(env.st, key, SArr(SInt, SArr(SBV64, es)))
+		was := fx.comp(env.old, key, SArr(SInt, SArr(SBV64, es)))
+		al := fx.comp(env.old, "$alloc", SInt)
+		return Val{T: T(fmt.Sprintf("(forall ((q_reg Int)) (! (=> (and (< q_reg %s) (not (= q_reg %s))) (= (select %s q_reg) (select %s q_reg))) :pattern ((select %s q_reg))))", al.S, sReg(x.T).S, now.S, was.S, now.S), SBool)}
 	case "bytes_kept":
 		// every byte region that existed when the call started has the contents it had then
 		if env.old == nil {
